@@ -161,6 +161,17 @@ CHECKS = {
         "header => not hot) is covered by examples and by the runs.",
    technique="Coq proof (protocol automaton invariant over all crash prefixes and torn writes) + strace kill-at-every-syscall differential vs SQLite recovery",
    design="DESIGN.md section 6, C09"),
+ "C10": dict(
+   text="The CREATE TABLE / CREATE INDEX parser is not modelled by hand: its LALR tables, token numbers, keyword table and all 107 semantic actions are TRANSLATED from sql/parser.go (and "
+        "the grammar from parser.go.y, cross-checked against the tables) into Coq on every run, and goyacc's driver loop is transcribed once over them (Model/SqlParse.v); Coq proves on "
+        "the translated text that every value an action reads is defined by the grammar symbol it reads it from (C10_actions_read_defined_values). Schema interpretation (db/schema.go) "
+        "is decided against the real thing: grammar-generated definitions (constraints in any order, duplicated / overlapping / named, quoted identifiers, COLLATE, ASC/DESC, WITHOUT "
+        "ROWID, expression and partial indexes) are executed by SQLite and what it accepts is read through sqlittle and compared with PRAGMA table_xinfo / index_list / index_xinfo and "
+        "a behavioural rowid-alias test: columns, WITHOUT ROWID, alias, primary key, every index name / key columns / collations / directions.",
+   note="PARTIAL: newCreateTable's rules (alias, merge, numbering, late INTEGER PRIMARY KEY index) are not yet stated as a Coq function with a theorem; they are decided by the oracle comparison. "
+        "This work found and repaired 8 disagreements of those rules with SQLite (known_findings.json 'fixed'); three more are recorded as known findings.",
+   technique="translated parser tables and actions (re-checked in Coq every run) + differential vs SQLite's PRAGMA schema introspection",
+   design="DESIGN.md section 6, C10"),
 }
 
 NOT_YET = {}
